@@ -42,8 +42,25 @@ TRACEBACK_KINDS = {"fail", "error", "failsub", "mismatch", "kbd", "exit", "kbdsu
 
 
 def x_prog(ctx, case):
+    nontrivial = _one_run(ctx, case, None)
+    return nontrivial
+
+
+def x_rerun(ctx, case):
+    """The same TestCase instance run twice: the second outcome carries exactly the second run's
+    details (nothing left over from the first run, nothing missing)."""
     program = case["prog"]
     env = programs.Env(program)
+    the_case = programs.build_case(program, env, programs.runner_factory_for(case.get("runner")))
+    _one_run(ctx, case, (env, the_case))
+    env.reset_for_rerun()
+    # handler registrations persist on the instance by design: re-announce them for the oracle
+    return _one_run(ctx, case, (env, the_case), second=True)
+
+
+def _one_run(ctx, case, shared, second=False):
+    program = case["prog"]
+    env = shared[0] if shared else programs.Env(program)
     cells_at = {}
 
     def hook(name, test):
@@ -51,6 +68,7 @@ def x_prog(ctx, case):
             cells_at["cells"] = dict(env.cells)
     log = recorders.Log(hook)
     run = programs.execute(program, lambda: recorders.ExtRecorder(log), env=env,
+                           case=shared[1] if shared else None,
                            runner_factory=programs.runner_factory_for(case.get("runner")))
     outs = [e for e in log.events if e.name in recorders.OUTCOMES]
     if len(outs) != 1:
@@ -168,7 +186,7 @@ def x_prog(ctx, case):
                   mechanism="user-adddetail-over-generated-name" if (not hits and excused(needle)) else None)
     # ---- (f) addOnException handlers ---------------------------------------------------------------
     raise_events = env.tags("raise")
-    regs = {e[2]: e[0] for e in env.tags("onexc_reg")}
+    regs = {} if second else {e[2]: e[0] for e in env.tags("onexc_reg")}
     for hid, reg_seq in regs.items():
         for (kind, tok, exc), rev in zip(env.raised, raise_events):
             if rev[0] < reg_seq or tok.startswith("FX"):
@@ -212,7 +230,7 @@ def _details_attached(spec, f, fid):
     return True
 
 
-SUBCHECKS = {"prog": x_prog}
+SUBCHECKS = {"prog": x_prog, "rerun": x_rerun}
 
 FEATURES = ("details", "expect", "mismatch_details", "fixture", "onexc", "nested_cleanup", "decor",
             "own_exc", "force")
@@ -235,6 +253,12 @@ def _sanitise(prog):
     for stage in ("su_pre", "su", "test", "td_pre", "td"):
         walk(prog.get(stage, []))
     return prog
+
+
+def program_has_late_state(prog):
+    """Programs whose second run legitimately differs (handlers inserted into exception_handlers at
+    run time persist)."""
+    return "'handler'" in repr(prog)
 
 
 def targeted(ctx):
@@ -323,4 +347,4 @@ def run(ctx):
             case["runner"] = "sync"
         elif r < 0.3 and not prog.get("decor"):
             case["runner"] = "async"
-        ctx.execute("prog", case)
+        ctx.execute("rerun" if rng.random() < 0.2 and not program_has_late_state(prog) else "prog", case)
